@@ -65,6 +65,7 @@ Inductive chanop :=
 | RcvTimerC                          (* <-timeout.C *)
 | RcvRErr | RcvWErr | RcvDie         (* closed-channel broadcasts of the session *)
 | RcvAccept | RcvLErr | RcvLDie      (* listener *)
+| RcvLEvent | SndLEvent              (* <-l.chDeadlineEvent, l.chDeadlineEvent <- struct{}{} *)
 | SndReadEvent | SndWriteEvent.      (* s.chReadEvent <- struct{}{} *)
 
 Inductive ret :=
